@@ -904,7 +904,13 @@ func isFreezeSetD(x ssa.Instruction, field string, depth int) bool {
 // to be missing. Every successful return of a registered tag parser is reached only after the argument parser was asked
 // whether anything remains (the "malformed arguments" test every tag ends with).
 func ruleC03ArgsConsumed(p *Prog, a *Anchors, r *Report) {
-	r.Begin("R-C03-ARGS", "every registered tag parser asks its argument parser whether tokens remain (arguments.Remaining/Count) on every path to a successful return: no part of a tag's arguments compiles unseen", 10)
+	ruleTagArgsConsumed(p, a, r, "R-C03-ARGS")
+}
+
+// ruleTagArgsConsumed: shared by C03 (a banned name in a part of a tag nobody parses) and C19 (an unregistered name
+// there): every part of a tag's arguments is looked at.
+func ruleTagArgsConsumed(p *Prog, a *Anchors, r *Report, rule string) {
+	r.Begin(rule, "every registered tag parser asks its argument parser whether tokens remain (arguments.Remaining/Count) on every path to a successful return, and looks at the arguments of every intermediate/closing tag on every path: no part of a tag's arguments compiles unseen", 10)
 	names := make([]string, 0, len(a.TagParsers))
 	for n := range a.TagParsers {
 		names = append(names, n)
@@ -983,14 +989,14 @@ func ruleC03ArgsConsumed(p *Prog, a *Anchors, r *Report) {
 						}
 						return false
 					}
-					if uses(ex, 0) {
+					if uses(ex, 0) && c3LookedAtOnEveryPath(f, c, ex) {
 						used = true
 					}
 				}
 				if used {
 					r.OK(wkey, p.InstrPos(in), "the arguments of the intermediate/closing tag are looked at")
 				} else {
-					r.Bad(wkey, p.InstrPos(in), "the parser of `%s` drops the argument parser of its closing tag: what is written there ({%% end%s x|banned_filter %%}) compiles unseen", name, name)
+					r.Bad(wkey, p.InstrPos(in), "the parser of `%s` drops the argument parser of an intermediate/closing tag on some path to a successful return (never used, or overwritten by the next WrapUntilTag before anyone looked at it): what is written there ({%% end%s x|banned_filter %%}) compiles unseen", name, name)
 				}
 			}
 		}
@@ -1004,4 +1010,101 @@ func ruleC03ArgsConsumed(p *Prog, a *Anchors, r *Report) {
 			r.OK(key, p.Pos(f.Pos()), "%d successful return(s), each after the remaining-arguments test", n)
 		}
 	}
+}
+
+// c3LookedAtOnEveryPath: on every path from the call to a successful return of f (a node and a nil error), the
+// value ex (a result of the call) is handed to some call — as it is, through the phis the path actually takes, or
+// through a local cell — before the return. A value that is overwritten by a later assignment on some path (the
+// phi takes the other edge there) was not looked at on that path.
+func c3LookedAtOnEveryPath(f *ssa.Function, call *ssa.Call, ex *ssa.Extract) bool {
+	type state struct {
+		b, from *ssa.BasicBlock
+		sig     string
+	}
+	seen := map[state]bool{}
+	ok := true
+	success := func(ret *ssa.Return) bool {
+		return len(ret.Results) == 2 && isNilConst(res(ret, 1)) && !isNilConst(res(ret, 0))
+	}
+	var walk func(b, from *ssa.BasicBlock, startIdx int, alias map[ssa.Value]bool, cells map[*ssa.Alloc]bool, depth int)
+	walk = func(b, from *ssa.BasicBlock, startIdx int, alias map[ssa.Value]bool, cells map[*ssa.Alloc]bool, depth int) {
+		if !ok || depth > 300 {
+			return
+		}
+		al2 := map[ssa.Value]bool{}
+		for k := range alias {
+			al2[k] = true
+		}
+		ce2 := map[*ssa.Alloc]bool{}
+		for k := range cells {
+			ce2[k] = true
+		}
+		if from != nil && startIdx == 0 {
+			idx := -1
+			for i, pr := range b.Preds {
+				if pr == from {
+					idx = i
+				}
+			}
+			for _, in := range b.Instrs {
+				phi, isPhi := in.(*ssa.Phi)
+				if !isPhi {
+					break
+				}
+				delete(al2, phi)
+				if idx >= 0 && idx < len(phi.Edges) && alias[phi.Edges[idx]] {
+					al2[phi] = true
+				}
+			}
+		}
+		var names []string
+		for k := range al2 {
+			names = append(names, k.Name())
+		}
+		for k := range ce2 {
+			names = append(names, "&"+k.Name())
+		}
+		sortStrings(names)
+		st := state{b, from, strings.Join(names, ",")}
+		if startIdx == 0 {
+			if seen[st] {
+				return
+			}
+			seen[st] = true
+		}
+		for i := startIdx; i < len(b.Instrs); i++ {
+			switch x := b.Instrs[i].(type) {
+			case *ssa.Call:
+				if x.Common().StaticCallee() != nil || x.Common().IsInvoke() {
+					for _, arg := range callArgs(x.Common()) {
+						if al2[arg] {
+							return // looked at on this path
+						}
+					}
+				}
+			case *ssa.Store:
+				if cell, isCell := x.Addr.(*ssa.Alloc); isCell {
+					if al2[x.Val] {
+						ce2[cell] = true
+					} else {
+						delete(ce2, cell) // overwritten
+					}
+				}
+			case *ssa.UnOp:
+				if cell, isCell := x.X.(*ssa.Alloc); isCell && ce2[cell] {
+					al2[x] = true
+				}
+			case *ssa.Return:
+				if success(x) {
+					ok = false
+				}
+				return
+			}
+		}
+		for _, s := range b.Succs {
+			walk(s, b, 0, al2, ce2, depth+1)
+		}
+	}
+	walk(ex.Block(), nil, instrIndex(ex)+1, map[ssa.Value]bool{ex: true}, map[*ssa.Alloc]bool{}, 0)
+	return ok
 }
